@@ -216,3 +216,34 @@ def xsi_type_text(sx, p):
     except Fault as e:
         return _client_fault(e)
     return True
+
+
+# ---------------------------------------------------------------- HttpRpc: hostile array indexes in flattened keys
+HTTPS = {'soft': HTTP, 'none': HttpRpc(app=APP), 'strict': HttpRpc(app=APP, strict_arrays=True),
+         'strict+soft': HttpRpc(app=APP, strict_arrays=True, validator='soft')}
+
+
+@harness('C10', params=[(c, n) for c in sorted(HTTPS) for n in (1, 2)], label=lambda p: '%s keys=%d' % p,
+         functions=['spyne.protocol.dictdoc.simple.SimpleDictDocument.simple_dict_to_object',
+                    'spyne.protocol.dictdoc.simple._s2cmi'],
+         bounds={'keys': 'one or two keys objs[<i>].v / arr[<i>] whose bracket content is any string of 1..2 characters over '
+                         '0-9 and x (so: gaps, leading keys deleted, non-numeric indexes), digit values; strict_arrays on/off, '
+                         'validator soft/None'})
+def http_hostile_indexes(sx, p):
+    """whatever array indexes the flattened keys carry, the request is decoded or refused with a Client fault"""
+    cfg, n = p
+    prot = HTTPS[cfg]
+    pairs = []
+    for j in range(n):
+        L = sx.choose('ilen%d' % j, [1, 2])
+        idx = sx.text('i%d' % j, L, alphabet='0123456789x')
+        which = sx.choose('member%d' % j, ['objs', 'arr'])
+        key = ('objs[' + idx + '].v') if which == 'objs' else ('arr[' + idx + ']')
+        pairs.append((key, [sx.digits('v%d' % j, 1)]))
+    if n == 2:
+        sx.assume(sx.Not(sx.eq(pairs[0][0], pairs[1][0])))
+    try:
+        prot.simple_dict_to_object(CTX, sx.mkdict(pairs), Holder, prot.validator)
+    except Fault as e:
+        return _client_fault(e)
+    return True
